@@ -9,6 +9,7 @@ import (
 	"fmt"
 	"regexp"
 	"strings"
+	"sync"
 
 	"github.com/anyproto/any-sync/app"
 
@@ -32,17 +33,38 @@ type event struct {
 	Idx  int
 }
 
-type logT struct{ ev []event }
+type logT struct {
+	mu sync.Mutex
+	ev []event
+}
+
+func (l *logT) add(k string, i int) {
+	l.mu.Lock()
+	l.ev = append(l.ev, event{k, i})
+	l.mu.Unlock()
+}
+func (l *logT) take() []event {
+	l.mu.Lock()
+	ev := l.ev
+	l.ev = nil
+	l.mu.Unlock()
+	return ev
+}
 
 // plain component
 type plain struct {
-	spec compSpec
-	idx  int
-	log  *logT
+	spec   compSpec
+	idx    int
+	log    *logT
+	onInit func() // lifecycle histories: called inside Init / Run (after logging the call)
+	onRun  func()
 }
 
 func (p *plain) Init(a *app.App) error {
-	p.log.ev = append(p.log.ev, event{"EInit", p.idx})
+	p.log.add("EInit", p.idx)
+	if p.onInit != nil {
+		p.onInit()
+	}
 	if p.spec.InitFails {
 		return errors.New("init failed")
 	}
@@ -53,14 +75,17 @@ func (p *plain) Name() string { return fmt.Sprintf("c%d", p.spec.Name) }
 type runnable struct{ plain }
 
 func (r *runnable) Run(ctx context.Context) error {
-	r.log.ev = append(r.log.ev, event{"ERun", r.idx})
+	r.log.add("ERun", r.idx)
+	if r.onRun != nil {
+		r.onRun()
+	}
 	if r.spec.RunFails {
 		return errors.New("run failed")
 	}
 	return nil
 }
 func (r *runnable) Close(ctx context.Context) error {
-	r.log.ev = append(r.log.ev, event{"EClose", r.idx})
+	r.log.add("EClose", r.idx)
 	if r.spec.CloseFails {
 		return errors.New("close failed")
 	}
@@ -387,6 +412,7 @@ func genLops(r *vlib.Rand) lopCase {
 }
 
 type caseDesc struct {
+	Life   *lifeCase    `json:"life,omitempty"`
 	Lops   *lopCase     `json:"lops,omitempty"`
 	Kind   string       `json:"kind"`
 	Comps  []compSpec   `json:"comps,omitempty"`
@@ -452,10 +478,34 @@ func main() {
 		}
 	}
 
+	doLifeAll := func(cases []lifeCase) {
+		runLifeAll(cases, func(lc lifeCase, res lifeResult) {
+			lcc := lc
+			d := caseDesc{Kind: "lifecycle", Life: &lcc, Obs: vlib.List(res.obsTerms)}
+			if res.hang != "" {
+				idx := w.Add(vlib.App("CLife", "[]", "[]"), d, fmt.Sprintf("life-hang-%d", len(res.opTerms)), false)
+				w.Violation(idx, "lifecycle-hang-or-panic", res.hang, d)
+				return
+			}
+			term := vlib.App("CLife", vlib.List(res.opTerms), vlib.List(res.obsTerms))
+			w.Add(term, d, term, len(res.opTerms) >= 3)
+			w.Stat("lifecycle")
+			w.Stat(fmt.Sprintf("lifecycle_late_registrations_landed_%d", res.fired))
+			if len(samples) < 8 && res.fired > 0 && len(res.opTerms) >= 5 {
+				samples = append(samples, d)
+			}
+		})
+	}
+
 	if o.Replay != "" {
+		var lifes []lifeCase
 		for _, raw := range vlib.ReadReplay(o.Replay) {
 			var d caseDesc
 			if json.Unmarshal(raw, &d) != nil {
+				continue
+			}
+			if d.Life != nil {
+				lifes = append(lifes, *d.Life)
 				continue
 			}
 			if d.Lops != nil {
@@ -468,6 +518,7 @@ func main() {
 				doList(d.Comps)
 			}
 		}
+		doLifeAll(lifes)
 		w.Finish("replay", samples, nil)
 		return
 	}
@@ -566,9 +617,20 @@ func main() {
 	for k := 0; k < nHist*o.Budget; k++ {
 		doLops(genLops(r))
 	}
+	// lifecycle histories: Register / Start / Close in any order, registrations attempted during Start
+	lifes := directedLife()
+	nLife := 160
+	if o.Tier == "thorough" {
+		nLife = 1600
+	}
+	for k := 0; k < nLife*o.Budget; k++ {
+		lifes = append(lifes, genLife(r))
+	}
+	doLifeAll(lifes)
 	w.Finish("exhaustive over lists of length <= maxLen x runnable mask x single failure point (init/run), "+
 		"plus random lists up to 12 with multiple failure points, plus random nestings (depth<=4, shadowed names, 3 interfaces), "+
-		"plus histories interleaving Register with Component / MustComponent / GetComponent[T] on the same live nesting; "+
+		"plus histories interleaving Register with Component / MustComponent / GetComponent[T] on the same live nesting, "+
+		"plus lifecycle histories (Register / Start / Close in any order, a Register attempted from another goroutine inside every Init / Run call: directed over lists <= 3, and random); "+
 		"a case is non-trivial if the list has >= 2 components / the chain has >= 2 levels; distinct by full case term",
 		samples, map[string]interface{}{"exhaustive_lists": exhaustive, "max_len": maxLen})
 }
